@@ -257,6 +257,11 @@ def check(ctx):
         gen = B.parse_obs(gi["opts"].get("d", {}).get("gen") or "")
         wfc["wf" if gen.get("wf") == "1" else "not-wf-or-unknown"] += 1
         wfc["good" if gen.get("good") == "1" else "not-good"] += 1
+        if pid in ("C02", "C07") and gi["opts"].get("d", {}).get("opt"):
+            # premise of C02_switch_invisible / C07_noast_switch_language: consistent first-set table
+            wfc["opt_ok" if "optok=1" in gi["opts"]["d"]["opt"].split(" ", 1)[0] else "opt_not_ok"] += 1
+            if gen.get("wf") == "1" and "optok=1" in gi["opts"]["d"]["opt"].split(" ", 1)[0]:
+                wfc["wf_and_opt_ok"] += 1
     ctx.coverage.update({
         "grammars_well_formed": dict(wfc),
         "evaluations": n_eval,
